@@ -192,6 +192,42 @@ func (s *socket) Read(b []byte) (int, error) {
 	return s.readerWithBuffer.Read(b)
 }
 
+// Write writes data to the connection.
+// NOTE:
+//  The methods of the embedded net.Conn are redefined to load the connection
+//  under the lock, because Reset may replace it concurrently.
+func (s *socket) Write(b []byte) (int, error) {
+	return s.Raw().Write(b)
+}
+
+// LocalAddr returns the local network address.
+func (s *socket) LocalAddr() net.Addr {
+	return s.Raw().LocalAddr()
+}
+
+// RemoteAddr returns the remote network address.
+func (s *socket) RemoteAddr() net.Addr {
+	return s.Raw().RemoteAddr()
+}
+
+// SetDeadline sets the read and write deadlines associated
+// with the connection.
+func (s *socket) SetDeadline(t time.Time) error {
+	return s.Raw().SetDeadline(t)
+}
+
+// SetReadDeadline sets the deadline for future Read calls
+// and any currently-blocked Read call.
+func (s *socket) SetReadDeadline(t time.Time) error {
+	return s.Raw().SetReadDeadline(t)
+}
+
+// SetWriteDeadline sets the deadline for future Write calls
+// and any currently-blocked Write call.
+func (s *socket) SetWriteDeadline(t time.Time) error {
+	return s.Raw().SetWriteDeadline(t)
+}
+
 // ControlFD invokes f on the underlying connection's file
 // descriptor or handle.
 // The file descriptor fd is guaranteed to remain valid while
@@ -267,10 +303,10 @@ func (s *socket) SwapLen() int {
 func (s *socket) ID() string {
 	s.idMutex.RLock()
 	id := s.id
+	s.idMutex.RUnlock()
 	if len(id) == 0 {
 		id = s.RemoteAddr().String()
 	}
-	s.idMutex.RUnlock()
 	return id
 }
 
